@@ -346,7 +346,12 @@ def real_matrix(irf, mc, axis, times):
             t_arr = np.asarray(times, dtype=float)
             if t_arr.size and np.all(t_arr == np.round(t_arr)) and np.all(np.abs(t_arr) < 2 ** 31):
                 t_arr = t_arr.astype(np.int64)
-            labels, mat = m.calculate_matrix(ds, np.asarray(axis, dtype=float), t_arr)
+            # an optimisation evaluates the same megacomplex again and again: what is observed is the SECOND of two identical
+            # evaluations (round-2 seeded change C05-5: the un-normalised IRF matrix memoised without a copy and then
+            # normalised in place, so every evaluation after the first was divided by the sum of scales once more)
+            g_arr = np.asarray(axis, dtype=float)
+            m.calculate_matrix(ds, g_arr, t_arr)
+            labels, mat = m.calculate_matrix(ds, g_arr, t_arr)
     except Exception as e:  # noqa: BLE001
         return rates, a, list(comps), L.classify_error(e)
     return rates, a, list(labels), np.asarray(mat)
